@@ -174,7 +174,7 @@ func (reader *CollectionReader) StartRead(ctx context.Context) {
 			_, shouldRead := reader.shouldReadFunc(&dbInfo, tmpCollectionInfo)
 			if !shouldRead {
 				partitionLog.Info("the partition should not be read", zap.String("name", collectionName))
-				return true
+				return false
 			}
 
 			err := reader.channelManager.AddPartition(ctx, &dbInfo, tmpCollectionInfo, info)
